@@ -166,6 +166,10 @@ fn el_slots(t: usize, vals: &[V], second: bool) -> Vec<Vec<Letter>> {
         absent_or(&|v| Letter::one(p(Some(0), "EL_INSITU", v))),
         absent_or(&|v| Letter::many(vec![p(Some(2), "EL_COGEN", v), u(Some(2), "COGEN", "GASNATURAL", &alpha::scale(v, 2, 1))])),
     ];
+    if second || t <= 2 && vals.len() <= 3 {
+        // a second PV field in a system that sorts after the cogenerator (two generators of one source, not contiguous)
+        s.push(absent_or(&|v| Letter::one(p(Some(3), "EL_INSITU", v))));
+    }
     if second {
         // a zero-valued PV line / CHP line present (source exists, produces nothing), a second service
         s.push(vec![Letter::many(vec![]), Letter::one(p(Some(1), "EL_INSITU", &vec![0; t])), Letter::one(u(Some(1), "ACS", "ELECTRICIDAD", &vs[vs.len() - 1]))]);
@@ -183,7 +187,9 @@ pub fn run(ctx: &Ctx) -> i32 {
         explore(ctx, "EL layered T=1 values {0,1,2,4} + zero-valued sources", Layered { slots: el_slots(1, &[0, 100, 200, 400], true), bases: alpha::bases(false) }, C12, shared.clone());
         explore(ctx, "EL layered T=3 values {0,1,3}", Layered { slots: el_slots(3, &[0, 100, 300], false), bases: alpha::bases(false) }, C12, shared.clone());
         explore(ctx, "EL layered T=2 decimal {0,0.01,0.07,33.33}", Layered { slots: el_slots(2, &[0, 1, 7, 3333], false), bases: alpha::bases(false) }, C12, shared.clone());
+        explore(ctx, "EL layered T=2 values {0,1,3} + second PV field after the cogenerator", Layered { slots: el_slots(2, &[0, 100, 300], false), bases: alpha::bases(false) }, C12, shared.clone());
     } else {
+        explore(ctx, "EL layered T=2 values {0,1,3} + second PV field after the cogenerator", Layered { slots: el_slots(2, &[0, 100, 300], false), bases: alpha::bases(false) }, C12, shared.clone());
         explore(ctx, "EL layered T=2 values {0,1,2,4} + zero-valued sources", Layered { slots: el_slots(2, &[0, 100, 200, 400], true), bases: alpha::bases(false) }, C12, shared.clone());
         explore(ctx, "EL layered T=3 values {0,1,3}", Layered { slots: el_slots(3, &[0, 100, 300], false), bases: alpha::bases(false) }, C12, shared.clone());
         explore(ctx, "EL layered T=2 decimal {0,0.01,0.07,33.33}", Layered { slots: el_slots(2, &[0, 1, 7, 3333], false), bases: alpha::bases(false) }, C12, shared.clone());
